@@ -27,6 +27,7 @@ import   "github.com/pbenner/autodiff/statistics/scalarDistribution"
 
 import . "github.com/pbenner/autodiff"
 import . "github.com/pbenner/threadpool"
+import   "github.com/pbenner/autodiff/verifhook"
 
 /* -------------------------------------------------------------------------- */
 
@@ -108,6 +109,8 @@ func (obj *MixtureEstimator) Emissions(gamma []DenseFloat64Vector, p ThreadPool)
   // estimate emission parameters
   g := p.NewJobGroup()
   if err := p.AddRangeJob(0, mixture1.NComponents(), g, func(c int, p ThreadPool, erf func() error) error {
+    verifhook.Yield("scalarEstimator.mixture.job")
+    verifhook.Event("scalarEstimator.mixture", c, p.GetThreadId())
     // copy parameters for faster convergence
     p1 := mixture1.Edist[c].GetParameters()
     p2 := mixture2.Edist[c].GetParameters()
@@ -129,6 +132,7 @@ func (obj *MixtureEstimator) Emissions(gamma []DenseFloat64Vector, p ThreadPool)
   }); err != nil {
     return err
   }
+  verifhook.Yield("scalarEstimator.mixture.queued")
   if err := p.Wait(g); err != nil {
     return err
   }
